@@ -1,6 +1,4 @@
 """C42 -- numerical inverse Laplace transforms are accurate on standard problems."""
-import math
-
 from ..core import R
 
 ID = "C42"
@@ -30,7 +28,6 @@ ASSUMPTIONS = ["mpref (frozen mpmath 1.3.0) evaluates exp, sin, cos, besselj(0, 
                "the textbook transform pairs (DLMF 1.14) are correct"]
 TECHNIQUE = "property-based testing (Hypothesis) against closed-form inverses evaluated by an independent reference"
 
-METHODS = ["talbot", "stehfest", "dehoog"]
 RATIO = {"talbot": 1.38 * 1.72, "stehfest": 2.93, "dehoog": 1.36}
 OSC = ("sin", "cos", "dsin", "dcos", "j0")
 FAMS_ALL = ["pow", "pow", "two", "erfc", "logp", "sin", "cos", "dsin", "dcos", "j0"]
